@@ -17,7 +17,7 @@ use blsful::*;
 use serde_json::json;
 use std::io::{BufRead, Write};
 
-pub const RULE: &str = "emit phase (both builds, same seed, same sharding): transcript lines {i, op, out_hex} for seeds -> SecretKey::from_hash, SecretKey::random / random_proof_challenge with a known-stream RNG, public_key, sign x 3 schemes, proof_of_possession, AggregateSignature / MultiSignature / MultiPublicKey accumulation, ProofCommitmentChallenge::from_hash, compute_y, hash_to_scalar, message_generator, seal_scalar with a fixed blinder, signcryption compute_w, the pairing value's byte encoding (what time-lock hashes), the tag constants, share combination (SecretKey::combine, PublicKey::from_shares, partial signatures and Signature::from_shares over harness-built share sets with identifiers up to 255, in three orders), the same signing operations for the edge keys 1, 2, 3, r-1, r-2, 2^254, ..., the scalar importers (be / le / TryFrom / serde) on the encodings 0, 1, r-1, r, r+1, 2r, 2r+1, 2^255, 2^256-1, and the bytes / serde_bare / serde_json encodings of those deterministic values; plus randomized artefact sets (ciphertexts x lengths, proofs, share sets, with ground truth) from several worker processes per build. check phase: (a) the blst and the rust transcript files must be identical line by line; (b) every artefact produced by one build is decoded, re-encoded and judged against its ground truth by the OTHER build (signatures and PoPs must also be reproduced byte for byte by the consuming build). Distinct by transcript line / artefact bytes; evaluations = lines compared + artefacts consumed.";
+pub const RULE: &str = "emit phase (both builds, same seed, same sharding): transcript lines {i, op, out_hex} for seeds -> SecretKey::from_hash, SecretKey::random / random_proof_challenge with a known-stream RNG, public_key, sign x 3 schemes, proof_of_possession, AggregateSignature / MultiSignature / MultiPublicKey accumulation, ProofCommitmentChallenge::from_hash, compute_y, hash_to_scalar, message_generator, seal_scalar with a fixed blinder, signcryption compute_w, the pairing value's byte encoding (what time-lock hashes), the tag constants, verdicts of verify / proof-of-possession / aggregate verification on fixed inputs (incl. the same pair listed twice with one copy of the key decoded from bytes), share combination (SecretKey::combine, PublicKey::from_shares, partial signatures and Signature::from_shares over harness-built share sets with identifiers up to 255, in three orders), the same signing operations for the edge keys 1, 2, 3, r-1, r-2, 2^254, ..., the scalar importers (be / le / TryFrom / serde) on the encodings 0, 1, r-1, r, r+1, 2r, 2r+1, 2^255, 2^256-1, and the bytes / serde_bare / serde_json encodings of those deterministic values; plus randomized artefact sets (ciphertexts x lengths, proofs, share sets, with ground truth) from several worker processes per build. check phase: (a) the blst and the rust transcript files must be identical line by line; (b) every artefact produced by one build is decoded, re-encoded and judged against its ground truth by the OTHER build (signatures and PoPs must also be reproduced byte for byte by the consuming build). Distinct by transcript line / artefact bytes; evaluations = lines compared + artefacts consumed.";
 
 pub fn run(ctx: &mut Ctx) {
     match ctx.phase.as_str() {
@@ -81,6 +81,32 @@ fn lines_for<C: Suite>(ctx: &Ctx, i: u64, out: &mut Vec<(String, Vec<u8>)>) {
     push("pairing_bytes", gt.to_bytes().as_ref().to_vec());
     push("timelock_compute_v", <C as BlsTimeCrypt>::compute_v(gt, &[0x11u8; 32]).to_vec());
     push("timelock_compute_w", <C as BlsTimeCrypt>::compute_w(&[0x22u8; 32], &msg));
+    // verdicts of the consumers on fixed inputs (a backend-dependent decision shows as a differing
+    // line): signatures, proof of possession, aggregates - also with the same (key, message) pair
+    // listed twice, once with both copies of the key as computed and once with the second copy
+    // decoded from its bytes (another in-memory representation of the same point)
+    {
+        let v = |b: bool| vec![b as u8];
+        for (si, s) in SCHEMES.iter().enumerate() {
+            push(&format!("verdict/verify/{}", s.name()), v(sigs[si].verify(&pk, &msg).is_ok()));
+            push(&format!("verdict/verify-other-msg/{}", s.name()), v(sigs[si].verify(&pk, &seed).is_ok()));
+            let two = [sigs[si], sigs[si]];
+            if let Ok(agg) = AggregateSignature::<C>::from_signatures(&two[..]) {
+                let same = vec![(pk, msg.clone()), (pk, msg.clone())];
+                push(&format!("verdict/aggregate-same-pair-twice/{}", s.name()), v(agg.verify(&same).is_ok()));
+                if let Ok(decoded) = PublicKey::<C>::try_from(pk_bytes(&pk).as_slice()) {
+                    let mixed = vec![(pk, msg.clone()), (decoded, msg.clone())];
+                    push(&format!("verdict/aggregate-same-pair-twice-second-decoded/{}", s.name()), v(agg.verify(&mixed).is_ok()));
+                    let mixed2 = vec![(decoded, msg.clone()), (pk, msg.clone())];
+                    push(&format!("verdict/aggregate-same-pair-twice-first-decoded/{}", s.name()), v(agg.verify(&mixed2).is_ok()));
+                }
+            }
+        }
+        if let Ok(pop) = sk.proof_of_possession() {
+            push("verdict/pop-own-key", v(pop.verify(pk).is_ok()));
+            push("verdict/pop-other-key", v(pop.verify(ks[0].public_key()).is_ok()));
+        }
+    }
     // share combination over a share set built by the harness (f(x) = sk + a1*x, a1 hash-derived;
     // identifiers vary with i and reach 255), and the same operations for an edge key
     {
